@@ -491,6 +491,9 @@ def conclude(pid, tier, seed, results, meta, t0):
             if c['status'] != 'SATISFIED':
                 if c['desc'] in h.expect_unsat_cover:
                     continue
+                tag = re.match(r'COVER\((\w+)\)', c['desc'])
+                if tag and ('_' + tag.group(1) + '_') not in h.name:
+                    continue    # witness of the other (compiled-out) variant of a split harness
                 inconclusive.append('%s: reachability witness not satisfied (%s): %s' % (h.name, c['status'], c['desc']))
         failed = [c for c in others if c['status'] not in ('SUCCESS', 'UNREACHABLE')]
         unwind_fail = [c for c in failed if c['status'] == 'FAILURE' and classify_check(c) == 'unwind']
@@ -501,6 +504,9 @@ def conclude(pid, tier, seed, results, meta, t0):
             failed = [c for c in failed if c['status'] == 'FAILURE' and classify_check(c) in ('property', 'safety')]
         for c in failed:
             kind = classify_check(c)
+            if h.only_safety and kind == 'property':
+                log('  note: %s: property assertion failed in a body re-run for C01 (not a C01 matter): %s' % (h.name, c['desc']))
+                continue
             if c['status'] != 'FAILURE':
                 inconclusive.append('%s: check %s is %s: %s' % (h.name, c['id'], c['status'], c['desc']))
             elif kind in ('model', 'unwind', 'unsupported'):
